@@ -21,6 +21,10 @@ class BadInt(int):
         raise pickle.PicklingError("Can't pickle BadInt %d: c08 unpicklable item" % int(self))
 
 
+class WorkerKilled(BaseException):
+    """scheduled runs only: the worker process is killed (SIGKILL / OOM) while it handles this item"""
+
+
 class C08Error(Exception):
     """a picklable user exception"""
 
@@ -58,6 +62,7 @@ class SpecFilter:
     def __init__(self, table, logdir=None):
         self.table = table          # {item: (outs, errname|None, gen)}  (keys may have become str through JSON)
         self.logdir = logdir
+        self.kill_at = ()           # items at which the worker process handling them is killed
 
     def _record(self, item):
         if self.logdir is None:
@@ -69,6 +74,11 @@ class SpecFilter:
     def filter(self, item):
         item = int(item_key(item))
         self._record(item)
+        if item in getattr(self, "kill_at", ()):
+            import os as _os
+            if self.logdir is None:
+                raise WorkerKilled(item)            # the fake process dies here without reporting anything
+            _os.kill(_os.getpid(), 9)               # real processes: really die
         outs, err, gen = self.table[item][:3]
         if len(self.table[item]) > 3 and self.table[item][3]:
             import time
